@@ -464,9 +464,34 @@ macro_rules | `(tactic| fault_step) => `(tactic| with_reducible exact streamCent
 is tolerated anywhere. -/
 theorem streamVisit_tight (ext : Ext) : Tight (streamVisit ext) := by unfold streamVisit; fault
 
--- c11: restate.  `streamEntryC` / `streamEntriesC` (partial consumption, then `ZipFile::drop`) are no longer
--- `Tight`: the drain of `ZipFile::drop` (`Model.drain`) swallows a read error, as the code does
--- (`Err(_) => break`), so a fault that fires inside the drain is NOT returned as that error.  The former lemmas
--- `streamEntryC_tight` / `streamEntriesC_tight` stated the opposite about a model without the drain.
+/-! ### Partial consumption + `ZipFile::drop` (`streamEntryC` / `streamEntriesC`)
+
+The drain of `ZipFile::drop` (`Model.drain`) swallows a read error, as the code does (`Err(_) => break`): these
+functions are NOT `Tight` — a fault that fires inside the drain is not returned by any call (known finding K-J,
+`Props.C11.stream_drain_fault_swallowed`).  What holds for every consumption pattern is `Uniform`: the call
+counter is monotone, the device's error kind is kept, and a fault index that is not reached changes nothing. -/
+
+theorem takeLoop_uniform (chunk : Nat) : ∀ fuel want : Nat, Uniform (takeLoop chunk fuel want)
+  | 0, _ => by unfold takeLoop; fault
+  | fuel + 1, want => by
+    have ih := takeLoop_uniform chunk fuel
+    unfold takeLoop
+    repeat (first | exact ih _ | fault_step)
+macro_rules | `(tactic| fault_step) => `(tactic| with_reducible exact takeLoop_uniform _ _ _)
+
+theorem drain_uniform (rem : Nat) : Uniform (drain rem) := by unfold drain; fault
+macro_rules | `(tactic| fault_step) => `(tactic| with_reducible exact drain_uniform _)
+
+theorem streamEntryC_uniform (ext : Ext) (c : Consume) : Uniform (streamEntryC ext c) := by
+  unfold streamEntryC; fault
+macro_rules | `(tactic| fault_step) => `(tactic| with_reducible exact streamEntryC_uniform _ _)
+
+theorem streamEntriesC_uniform (ext : Ext) (pattern : List Consume) :
+    ∀ fuel i : Nat, Uniform (streamEntriesC ext pattern fuel i)
+  | 0, _ => by unfold streamEntriesC; fault
+  | fuel + 1, i => by
+    have ih := streamEntriesC_uniform ext pattern fuel
+    unfold streamEntriesC
+    repeat (first | exact ih _ | fault_step)
 
 end ZipVerif.Model
